@@ -123,7 +123,7 @@ def diff_value(spec, f, sem, want, got, path, out, elem=False):
 
 def same_class(cname, pname):
     from .names import norm
-    c = cname.split('.')[-1].split('$')[-1].split('::')[-1]
+    c = cname.replace('/', '.').split('.')[-1].split('$')[-1].split('::')[-1]
     return norm(c) == norm(pname)
 
 
